@@ -46,7 +46,8 @@ REQUIRED = ('streets_completed', 'draw_rounds_checked', 'burns_checked',
             'forks')
 
 CUSTOMS = ('kuhn', 'draw5', 'stud5', 'greek', 'courchevel', 'holdem8',
-           'plo8', 'badugi1', 'razzdraw', 'random', 'studdraw', 'openstud')
+           'plo8', 'badugi1', 'razzdraw', 'random', 'studdraw', 'openstud',
+           'studboard', 'studboard')
 DEALING = ('CardBurning', 'HoleDealing', 'BoardDealing',
            'StandingPatOrDiscarding')
 BETTING = ('Folding', 'CheckingOrCalling', 'BringInPosting',
@@ -61,7 +62,13 @@ class StreetRec:
         self.street = st
         self.live = [i for i in s.player_indices if s.statuses[i]]
         n_hole = len(st.hole_dealing_statuses)
-        dealable = len(tuple(s.get_dealable_cards())) + already
+        # cards that can still be dealt, counted from the raw piles: the
+        # deck plus the KNOWN cards of burns, muck and discards (an unknown
+        # placeholder cannot be dealt again)
+        dealable = len(s.deck_cards) + sum(
+            1 for c in s.burn_cards if c) + sum(
+            1 for c in s.mucked_cards if c) + sum(
+            1 for pile in s.discarded_cards for c in pile if c) + already
         self.fallback = n_hole * len(self.live) > dealable
         b = s.starting_board_count
         if self.fallback:
@@ -414,12 +421,27 @@ def gen_kwargs(rng):
 
 
 def pol_tweak(pol, cfg, rng):
+    stud = cfg.get('game') in gen.STUD_GAMES or cfg.get('template') in (
+        'stud5', 'studboard', 'openstud')
+    if stud and cfg['n'] >= 7 and rng.random() < 0.35:
+        # mixed information: one or two seats with unrecorded down cards and
+        # unknown burns; the known cards can still exhaust the deck
+        pol['deal_override'] = 'mixedunknown'
+        pol['unknown_seats'] = rng.sample(range(cfg['n']),
+                                          rng.choice([1, 1, 2]))
+        cfg['autos'] = [a for a in cfg['autos']
+                        if a not in ('HOLE_DEALING', 'CARD_BURNING',
+                                     'HOLE_CARDS_SHOWING_OR_MUCKING')]
+        cfg['mode'] = 'CASH_GAME'
     if rng.random() < 0.4:
         pol['fork_p'] = 0.03     # continue on a deepcopy mid-hand
     pol['policy'] = rng.choice(['passive', 'passive', 'uniform', 'foldy',
                                 'allin', 'drawheavy'])
     if pol['deal'] == 'default' and rng.random() < 0.5:
         pol['deal'] = rng.choice(['chunks', 'anyorder', 'explicit'])
+    if pol.get('deal_override'):
+        pol['deal'] = pol['deal_override']
+        pol['policy'] = 'passive'
 
 
 def nontrivial(ctx):
